@@ -10,6 +10,7 @@
 //	ta  GetNow, process dies inside Delete after the file is removed (then restart)
 //	r   restart (new pool over the same storage)   rf  restart, ReadAll fails
 //	gt  generate, process dies inside Save leaving an empty file (ppool family, see ppool.go)
+//	ps  the scheduler stops generation (a protocol runs)   pr  it resumes generation
 //	gx  a valid parameter file appears on storage under a non-canonical name (not via Save)
 //
 // Obs line: outs=<per-step result> counts=<ParametersCount after each step> disk=<ids on storage>
@@ -31,6 +32,7 @@ import (
 	"go/token"
 	"os"
 	"path/filepath"
+	"runtime"
 	"strconv"
 	"strings"
 	"sync"
@@ -243,6 +245,22 @@ func (in *instance[T]) generate(ctx context.Context) *T {
 	}
 }
 
+// waitNoPoolWorker waits until no goroutine is running the worker closure of NewParameterPool.
+func waitNoPoolWorker(d time.Duration) bool {
+	deadline := time.Now().Add(d)
+	buf := make([]byte, 1<<20)
+	for {
+		n := runtime.Stack(buf, true)
+		if !strings.Contains(string(buf[:n]), "generator.NewParameterPool[") {
+			return true
+		}
+		if time.Now().After(deadline) {
+			return false
+		}
+		time.Sleep(200 * time.Microsecond)
+	}
+}
+
 // sendCmd hands the next command to the generator goroutine, which the unchanged code always
 // picks up (it is waiting in generateFn).
 func sendCmd(ch chan genCmd, c genCmd) bool {
@@ -289,6 +307,7 @@ func runPool[T any](size int, steps []string, st backend[T]) (string, string) {
 	}
 	next := 1
 	pending := false
+	paused := false // generation stopped by the scheduler (this process lifetime)
 	var outs []string
 	var counts []int
 	tags := map[string]bool{}
@@ -298,7 +317,7 @@ func runPool[T any](size int, steps []string, st backend[T]) (string, string) {
 		st.BeforeRestart()
 		st.SetReadFail(readFail)
 		in = newInstance(st, size)
-		pending = false
+		pending, paused = false, false
 		return waitCh(in.ready, longWait())
 	}
 	panicked := false
@@ -306,7 +325,7 @@ func runPool[T any](size int, steps []string, st backend[T]) (string, string) {
 		out := ""
 		switch s {
 		case "g", "gf", "gw", "gn", "gc", "gt":
-			if pending {
+			if pending || paused {
 				out = "b"
 				tags["busy"] = true
 				break
@@ -377,9 +396,33 @@ func runPool[T any](size int, steps []string, st backend[T]) (string, string) {
 				out += "p"
 				tags["blocked"] = true
 			}
+		case "ps":
+			// a protocol starts: the scheduler stops generation (same pool, no restart)
+			out = "z"
+			if !paused {
+				in.sched.VerifC39Stop()
+				// the generator goroutine (possibly blocked on the full pool) leaves through
+				// ctx.Done(); wait until no pool worker goroutine is left before any slot is freed
+				if !waitNoPoolWorker(longWait()) {
+					return "STUCK pause", "stuck"
+				}
+				paused, pending = true, false
+				tags["pause"] = true
+			}
+		case "pr":
+			// the protocol is over: generation resumes
+			out = "z"
+			if paused {
+				in.sched.VerifC39Resume()
+				paused = false
+				if !waitCh(in.ready, longWait()) {
+					return "STUCK resume", "stuck"
+				}
+				tags["resume"] = true
+			}
 		case "gx":
 			// an operator copies a valid parameter file into the storage (not through Save)
-			if pending {
+			if pending || paused {
 				out = "b"
 				tags["busy"] = true
 				break
@@ -463,7 +506,7 @@ func runPool[T any](size int, steps []string, st backend[T]) (string, string) {
 	disk := st.Disk()
 	obs := "outs=" + hx.JoinStrs(outs) + " counts=" + hx.JoinInts(counts) + " disk=" + hx.JoinInts(disk)
 	var ts []string
-	for _, t := range []string{"served", "savefail", "delfail", "crash", "torn", "restart", "readfail", "blocked", "busy", "empty", "external", "panic"} {
+	for _, t := range []string{"served", "savefail", "delfail", "crash", "torn", "restart", "readfail", "blocked", "busy", "empty", "external", "pause", "resume", "panic"} {
 		if tags[t] {
 			ts = append(ts, t)
 		}
@@ -493,7 +536,7 @@ func exec1(op string) (string, string) {
 	return "bad-op", "bad"
 }
 
-var stepKinds = []string{"g", "g", "g", "g", "gf", "gf", "gw", "gn", "gc", "gx", "t", "t", "t", "t", "tf", "tb", "ta", "r", "rf"}
+var stepKinds = []string{"g", "g", "g", "g", "gf", "gf", "gw", "gn", "gc", "gx", "ps", "pr", "pr", "t", "t", "t", "t", "tf", "tb", "ta", "r", "rf"}
 
 func gen(r *hx.Rng, n int, tier string) []string {
 	var ops []string
